@@ -53,6 +53,12 @@ structure HalfArm where
 /-- Fields of a placement. -/
 inductive PField | id | col | row | w | h
   deriving DecidableEq, Repr
+/-- One leading ` + "`if … { return }`" + ` of a Draw method: no encoded data yet (` + "`X.buf.Len() == 0`" + `), the encoder goroutine
+    still running (` + "`atomicLoad(&X.encoding)`" + `), the size test ` + "`X.w <cw> w <conn> X.h <ch> h`" + ` against
+    ` + "`w, h := win.Size()`" + `, or a condition the extractor does not know (the model then treats the method as never
+    drawing, and the theorems about Gen's gates fail). -/
+inductive Gate | noData | encoding | size (cw : Cmp) (conn : Conn) (ch : Cmp) | unknown (text : String)
+  deriving DecidableEq, Repr
 
 `
 
@@ -659,6 +665,12 @@ func gen(c *ex.Ctx) {
 	}
 	fmt.Fprintf(&sb, "\n/-- fields compared by samePlacement. -/\ndef samePlacementFields : List PField := [%s]\n", strings.Join(fields, ", "))
 
+	// ---- the gates of KittyImage.Draw / Sixel.Draw, structured (interpreted by Model/ImageDraw.lean)
+	for _, d := range [][3]string{{"KittyImage", "k", "kittyGates"}, {"Sixel", "s", "sixelGates"}} {
+		fmt.Fprintf(&sb, "\n/-- the leading `if … { return }` statements of %s.Draw, in source order. -/\ndef %s : List Gate := [%s]\n",
+			d[0], d[2], strings.Join(structuredGates(c, ex.FindFunc(f, d[0], "Draw"), d[1]), ", "))
+	}
+
 	sb.WriteString("\nend VaxisModel.Gen.ImageConsts\n")
 	c.Write("ImageConsts.lean", sb.String())
 	genFlow(c, f)
@@ -728,16 +740,55 @@ func keep(texts []string, keys ...string) []string {
 	return out
 }
 
-// gates: the leading `if … { return }` statements.
-func gates(c *ex.Ctx, l []ast.Stmt) []string {
+// structuredGates: every top-level `if cond { return }` of a Draw method as a Gate value.  The size test is only
+// recognised when `w, h := win.Size()` is a top-level statement before it and neither w nor h is assigned in
+// between; anything else is `.unknown "<cond>"`.  Never fails.
+func structuredGates(c *ex.Ctx, fd *ast.FuncDecl, recv string) []string {
+	if fd == nil || fd.Body == nil {
+		return []string{".unknown \"function not found\""}
+	}
 	var out []string
-	for _, s := range l {
-		is, ok := s.(*ast.IfStmt)
-		if !ok || is.Else != nil || len(is.Body.List) != 1 {
+	haveSize := false
+	for _, st := range fd.Body.List {
+		t := src(c, st)
+		if t == "w, h := win.Size()" {
+			haveSize = true
 			continue
 		}
-		if _, ok := is.Body.List[0].(*ast.ReturnStmt); ok {
-			out = append(out, src(c, is.Cond))
+		if as, ok := st.(*ast.AssignStmt); ok {
+			for _, l := range as.Lhs {
+				if n := src(c, l); n == "w" || n == "h" || n == "win" {
+					haveSize = false
+				}
+			}
+		}
+		is, ok := st.(*ast.IfStmt)
+		if !ok || is.Init != nil || is.Else != nil || len(is.Body.List) != 1 {
+			continue
+		}
+		if r, ok := is.Body.List[0].(*ast.ReturnStmt); !ok || len(r.Results) != 0 {
+			continue
+		}
+		cond := src(c, is.Cond)
+		switch {
+		case cond == recv+".buf.Len() == 0":
+			out = append(out, ".noData")
+		case cond == "atomicLoad(&"+recv+".encoding)":
+			out = append(out, ".encoding")
+		default:
+			g := ".unknown " + ex.LeanStr(cond)
+			if be, ok := is.Cond.(*ast.BinaryExpr); ok && haveSize && (be.Op == token.LOR || be.Op == token.LAND) {
+				cw, ok1 := cmpOf(c, be.X, recv+".w", "w")
+				ch, ok2 := cmpOf(c, be.Y, recv+".h", "h")
+				if ok1 && ok2 {
+					conn := ".or"
+					if be.Op == token.LAND {
+						conn = ".and"
+					}
+					g = fmt.Sprintf(".size %s %s %s", cw, conn, ch)
+				}
+			}
+			out = append(out, g)
 		}
 	}
 	return out
@@ -765,10 +816,8 @@ func genFlow(c *ex.Ctx, f *ast.File) {
 	sr := goFuncBody(body("Sixel", "Resize"))
 	emit("sixelResizeCell", "Sixel.Resize (goroutine): cell pixel size, s.w / s.h", keep(stmtTexts(c, sr), "cellPix", "s.w", "s.h"))
 	kd := body("KittyImage", "Draw")
-	emit("kittyDrawGates", "KittyImage.Draw: conditions of the `if … { return }` statements", gates(c, kd))
 	emit("kittyWriteFunc", "KittyImage.Draw: the writeTo closure of the placement", stmtTexts(c, closureBody(kd, "writeFunc")))
-	sd := body("Sixel", "Draw")
-	emit("sixelDrawGates", "Sixel.Draw: conditions of the `if … { return }` statements", gates(c, sd))
+	// (the gates of both Draw methods are structured data in ImageConsts.lean: kittyGates / sixelGates)
 	emit("halfDraw", "HalfBlockImage.Draw", stmtTexts(c, body("HalfBlockImage", "Draw")))
 	emit("fullDrawLoop", "FullBlockImage.Draw: the loop header and the two index statements",
 		keep(strings.Split(strings.Join(stmtTexts(c, body("FullBlockImage", "Draw")), " ; "), " ; "), "for i, cell"))
